@@ -6,6 +6,7 @@ import (
 )
 
 const maxEntries = 128
+const maxCount = 16 * 1024
 
 type Map struct {
 	mu        sync.Mutex
@@ -78,7 +79,14 @@ func addMapping(m *Map, seqno, delta, pidDelta uint16) {
 
 	i := m.lastEntry
 	if delta == m.entries[i].delta && pidDelta == m.entries[i].pidDelta {
-		m.entries[m.lastEntry].count = seqno - m.entries[i].first + 1
+		count := seqno - m.entries[i].first + 1
+		// keep the interval well within half the seqno space,
+		// otherwise comparisons with its start become meaningless
+		if count > maxCount {
+			m.entries[i].first += count - maxCount
+			count = maxCount
+		}
+		m.entries[i].count = count
 		return
 	}
 
